@@ -754,7 +754,12 @@ class Interp:
             if v.is_number:
                 return bool(v != 0)
             if self.decide is not None:
-                d = self.decide(v)
+                q = v if _is_boolterm(v) else sp.Ne(v, 0)
+                if q is sp.true:
+                    return True
+                if q is sp.false:
+                    return False
+                d = self.decide(q)
                 if d is not None:
                     return d
             return None
